@@ -6,7 +6,7 @@ V = lambda i: ('v', i)
 L = lambda n=1: ('lit', n)
 M_ID, K_ID = 0, 8            # g0 is the mutable base, K the constant base
 
-LINKS = ['const', 'fun-return', 'fun-local', 'fun-if', 'fun-while', 'fun-arg', 'fun-chain']
+LINKS = ['const', 'fun-return', 'fun-local', 'fun-const-local', 'fun-if', 'fun-while', 'fun-arg', 'fun-chain']
 CONTEXTS = ['arraysize', 'range', 'scalarsize', 'global-init', 'const-init', 'template-init', 'value-arg', 'constref-arg', 'typedef-range', 'struct-array', 'select-range',
             'template-array', 'param-range']
 
@@ -39,6 +39,9 @@ class Chain:
             if ln == 'fun-return':
                 body = ('block', [], [('ret', cur)])
             elif ln == 'fun-local':
+                body = ('block', [(lid, cur)], [('ret', V(lid))])
+            elif ln == 'fun-const-local':
+                self.N.add(lid, 'kc%d' % lid)                     # rendered as "const int kc.. = <previous link>;"
                 body = ('block', [(lid, cur)], [('ret', V(lid))])
             elif ln == 'fun-if':
                 body = ('block', [], [('if', cur, ('ret', L(1))), ('ret', L(2))])
@@ -192,7 +195,7 @@ def check(run):
     if mism:
         run.tie_broken('computability: model verdict / twins vs type checker', mism[:6] + [dict(total=len(mism))])
     run.cov.update(functions_depends_compared=nfun, evaluations=len(cases) + len(extra) + nfun, distinct_nontrivial=len(cases), traces_validated_against_impl=len(cases),
-                   rule='%d compile-time contexts x dependence chains of length 0..4 over {const initialiser, function return, function local, if condition, while condition, function argument, call chain} ending in a '
+                   rule='%d compile-time contexts x dependence chains of length 0..4 over {const initialiser, function return, function local, const function local, if condition, while condition, function argument, call chain} ending in a '
                         'mutable variable (must be rejected), a constant or a literal (must be accepted); verdict vs the extracted reads/ctc model; plus free / bound / partially instantiated process parameters in array sizes' % len(CONTEXTS),
                    samples=[dict(context=c[3], chain=c[1], base=c[0], expr=G.e_txt(c[2].expr, c[2].N)) for c in cases[5:8]], rejected=nrej, accepted=nacc, per_context_accept_reject=per_ctx)
     run.cov['trusted_base'] += ['hand model Effects.v / Compute.v (reads over function summaries; tied by C11\'s summary correspondence and by this verdict matrix)', 'abstract chain renderer', 'drv_effects.ml']
